@@ -29,8 +29,8 @@ ASSUMPTIONS = [
     "step independence of the annual reach is claimed for no / per-year capacity constraints only (an absolute constraint on a one-off program is per step by definition)",
     "comparison tolerance |a-b| <= 1e-9*max(1,|a|,|b|); monotonicity is checked with the same tolerance",
 ]
-BUDGET = {"quick": 160000, "thorough": 5000000}
-TIME_CAP = {"quick": 45, "thorough": 1100}
+BUDGET = {"quick": 100000, "thorough": 3500000}
+TIME_CAP = {"quick": 35, "thorough": 1100}
 
 INF = float("inf")
 YEARS = [2015.0, 2018.0, 2019.0, 2020.0, 2020.1, 2020.25, 2020.3, 2020.5, 2021.0, 2022.0, 2023.0, 2025.0]
@@ -273,7 +273,7 @@ def decode_progset(nprogs):
                     "ow_cov": d_overwrite(d, v_cov),
                 }
             )
-        return {"mode": "progset", "dt": dt, "tvec": tvec, "start_year": [2020.0, 2016.0, 2020.5, 2022.0][flags % 4], "progs": progs, "inst_none_if_empty": (flags // 4) % 2 == 0}
+        return {"mode": "progset", "dt": dt, "tvec": tvec, "start_year": [2020.0, 2016.0, 2020.5, 2022.0][flags % 4], "progs": progs, "inst_none_if_empty": (flags // 4) % 2 == 0, "alloc_progset": (flags // 8) % 8 == 7}
 
     return dec
 
@@ -609,9 +609,15 @@ def check_progset(at, case):
     names = ["P%d" % i for i in range(len(case["progs"]))]
     progs, refs = [], []
     alloc_ow, cap_ow, cov_ow = {}, {}, {}
+    from_ps = bool(case.get("alloc_progset"))
+    eff_alloc = []
     for name, p in zip(names, case["progs"]):
         one_off = p["one_off"]
         step = dt if one_off else 1.0
+        if from_ps:
+            # ProgramInstructions(alloc=<ProgramSet>): every program's spending is frozen at its book value in force in the start year
+            p = dict(p, ow_alloc={"rel": False, "kind": "scalar", "v": ref_prev(p["spend"], case["start_year"])})
+        eff_alloc.append(p["ow_alloc"])
         uc_t = [ref_prev(p["uc"], t) for t in tvec]
         book_spend = [ref_prev(p["spend"], t) for t in tvec]
         spend_t = book_spend if p["ow_alloc"] is None else [ref_overwrite(p["ow_alloc"], t) for t in tvec]
@@ -648,7 +654,7 @@ def check_progset(at, case):
         labels.add("overwrites:" + combo)
         for k, o in (("spending", p["ow_alloc"]), ("capacity", p["ow_cap"]), ("coverage", p["ow_cov"])):
             if o is not None:
-                labels.add("overwrite-%s:%s" % (k, o["kind"] if o["kind"] == "scalar" else series_label(o["s"])))
+                labels.add("overwrite-%s:%s" % (k, "from-progset" if (from_ps and k == "spending") else o["kind"] if o["kind"] == "scalar" else series_label(o["s"])))
         labels.add("book-spending-series:" + series_label(p["spend"]))
 
     ps = mk_progset(at, progs)
@@ -657,14 +663,15 @@ def check_progset(at, case):
         inst = None
         labels.add("instructions:none")
     else:
-        inst = call("ProgramInstructions", at.ProgramInstructions, case["start_year"], alloc=alloc_ow or None, capacity=cap_ow or None, coverage=cov_ow or None)
+        inst = call("ProgramInstructions", at.ProgramInstructions, case["start_year"], alloc=ps if from_ps else (alloc_ow or None), capacity=cap_ow or None, coverage=cov_ow or None)
     tv = np.array(tvec, dtype=float)
     alloc = call("get_alloc", ps.get_alloc, tv, inst)
     caps = call("get_capacities", ps.get_capacities, tv, dt, inst)
     num_elig = {nm: np.array(r["elig"], dtype=float) for nm, r in zip(names, refs)}
     cov = call("get_prop_coverage", ps.get_prop_coverage, tv, dt, caps, num_elig, inst)
     nontrivial = False
-    for nm, p, r in zip(names, case["progs"], refs):
+    for nm, p, r, ea in zip(names, case["progs"], refs, eff_alloc):
+        p = dict(p, ow_alloc=ea)
         for what, d in (("alloc", alloc), ("capacities", caps), ("coverage", cov)):
             if nm not in d:
                 raise Violation(ID, "progset/missing-program", "%s has no entry for %s; case %r" % (what, nm, case))
